@@ -11,7 +11,8 @@ rc=0
 (cd /verif/sim/simrt && GOFLAGS=-mod=mod GOPROXY=off GOSUMDB=off GOTOOLCHAIN=local go test -count=1 . >/dev/null 2>&1) && echo "selftest: simrt unit tests pass" || { echo "selftest: simrt unit tests FAIL"; rc=1; }
 /verif/tools/instrument_selftest.sh | tail -1 | grep -q FIXTURE-OK && echo "selftest: instrumenter fixture ok (every rewritten construct, 300 seeds)" || { echo "selftest: instrumenter fixture FAIL"; rc=1; }
 # known hazards: Go map iteration reaching the event log
-if grep -n "sync\.Map" /verif/sim/simrt/*.go /verif/sim/harness/*.go >/dev/null; then echo "selftest: sync.Map in simulator code"; rc=1; fi
+# (comments are stripped: simrt/syncx.go is the MODEL of sync.Map - a plain map plus an insertion-order key slice)
+if sed 's://.*$::' /verif/sim/simrt/*.go /verif/sim/harness/*.go | grep -n "sync\.Map" >/dev/null; then echo "selftest: sync.Map in simulator code"; rc=1; fi
 for p in C04 C05 C06 C11 C12 C19; do
   i=0
   for gmp in 1 4 16 1 4 16; do
